@@ -3,8 +3,10 @@ PROP = {
     "technique": ("runtime monitor: graph-snapshot differential oracle + broadcast monitor around a real "
                   "AuthenticatedGossiper over a real graph.Builder/bbolt graph DB, judged by a harness-side "
                   "BOLT-7 reference validity predicate; zombie-index monitor judged by a harness-side "
-                  "resurrection reference (direction owner x stored key x prune window)"),
-    "level_text": ("256 (quick) / 14000 (thorough) PRNG scenarios of 40 remote gossip messages each (valid channel_announcement / channel_update / "
+                  "resurrection reference (direction owner x stored key x prune window); cross-direction workload "
+                  "(authentic updates over the channel-flag / message-flag space x timestamp classes relative to each "
+                  "direction's stored policy) judged by the same reference predicate and oracles"),
+    "level_text": ("256 (quick) / 14000 (thorough) PRNG scenarios of 40 remote gossip messages each, followed by a zombie phase and a cross-direction phase (valid channel_announcement / channel_update / "
                    "node_announcement sets from PRNG keys, every single-field corruption with and without re-signing, "
                    "single-byte corruptions of the signed region and of the signatures, replays, orderings incl. "
                    "update-before-channel and not-yet-mined funding blocks, spent / mismatching / missing funding "
@@ -22,16 +24,34 @@ PROP = {
                    "ChannelGraph.DeleteChannelEdges(strict, markZombie) + PruneGraphNodes exactly as Builder.pruneZombieChans "
                    "issues them, on graph channels with 0/1/2 policies of assorted ages); then channel_updates signed by "
                    "node 1 / node 2 / a stranger x direction bit 0/1 x timestamp classes (fresh, just inside / just outside "
-                   "the 14-day prune window, old, 2020, zero, near and far future; some byte-flipped) and valid / badly signed "
+                   "the 14-day prune window, old, 2020, zero, near and far future; 3 in 8 with the disable bit and/or unknown channel-flag "
+                   "bits set besides the direction bit; some byte-flipped) and valid / badly signed "
                    "channel_announcements are delivered for them. Oracle zombie_stays_dead_unless_authentic: after quiescence "
                    "a tracked zombie entry may disappear only through an update whose signature verifies under the real key "
                    "of the node owning the flagged direction, whose key is the one stored in that node's slot of the entry, "
                    "and whose timestamp is not older than the prune window (or through a reference-valid announcement "
                    "re-adding the channel); entries are never rewritten; an update that fails the reference is not kept in "
-                   "prematureChannelUpdates (not applied / not relayed are judged by the graph and broadcast oracles)."),
+                   "prematureChannelUpdates (not applied / not relayed are judged by the graph and broadcast oracles). "
+                   "Cross-direction phase (2 rounds per scenario, own PRNG stream, after the zombie phase): a channel is announced "
+                   "(or one already in the graph is reused) and its two stored policies are laid out with plain valid updates as "
+                   "{none, only direction 0, only direction 1, direction 0 older by 1e4..5e6 s, direction 0 newer by as much, equal}; "
+                   "then 12 channel_updates per round, signed by the owner of the flagged direction (1 in 8 by the other node), over "
+                   "channel flags = direction bit x disable bit x unknown bits (2..7) and message flags = with/without max-htlc x "
+                   "unknown bits (1..7), with the timestamp drawn from classes relative to BOTH directions' stored timestamps: older "
+                   "than both, strictly between them (own direction older / own direction newer), equal to own, equal to the other "
+                   "direction's, +-1 around either, newer than both (and the corresponding classes when one or both directions have "
+                   "no policy). No additional oracle: each message goes through the same per-message judgement (reference predicate "
+                   "= signer is the owner of the direction BIT only, strictly newer than the stored policy OF THAT DIRECTION, "
+                   "consistent fields; oracles graph_unchanged_unless_valid, not_relayed_unless_valid, applied_matches_message). "
+                   "Counters x_stale_own_fresh_oth_d<dir>_<flag class> (stale for its own direction although newer than the other "
+                   "direction's stored policy, or the other has none) and x_fresh_own_stale_oth_* (the mirror case) have floors per "
+                   "direction and flag class."),
     "level_note": ("Sampled, not exhaustive. Gossip v1 only: the pinned tree rejects v2 messages on the remote path "
                    "(probed at run time, see notes.gossip_versions). 'valid => applied/relayed' is a diagnostic only "
-                   "(keep-alive suppression, zombie/closed-scid caches, rate limits are legitimate). Of the zombie index only "
+                   "(keep-alive suppression, zombie/closed-scid caches, rate limits are legitimate) - also for the cross-direction "
+                   "phase: an authentic fresh update with unusual flags that lnd drops is counted (x_valid_refused) and reported as "
+                   "diagnostic valid_not_applied:x.cu..., never as a verdict, because the statement only says 'applied only if'. "
+                   "Of the zombie index only "
                    "the entries the harness itself created are judged (removal / rewrite; additions by lnd for channels "
                    "that failed validation are not judged); the closed-scid cache is not part of the judged snapshot. "
                    "Zombie freshness is wall-clock relative inside lnd (time.Since), so zombie-phase timestamps are "
@@ -50,12 +70,14 @@ PROP = {
                    "direction-1 update signed by node 1 resurrects the channel (key prune-strict:odd(-,n1):node1:d1:"
                    "not-signed-by-direction-owner:resurrected+cached; findings/C20_strict_zombie_wrong_key_*)."),
     "design_ref": "DESIGN.md §3 C20",
-    "rule": ("One case = one scenario (own keys, own model chain, own gossiper+builder+graph DB) of 40 steps plus 28 zombie-phase steps; "
+    "rule": ("One case = one scenario (own keys, own model chain, own gossiper+builder+graph DB) of 40 steps plus 28 zombie-phase steps "
+             "plus 2 cross-direction rounds (channel announcement, 0-2 layout updates, 12 flag x timestamp-class updates each); "
              "evaluations = remote messages judged. A step is non-trivial when it is a byte corruption, or the "
              "reference judged it valid, or lnd changed the graph / returned an error / cached it; distinct = "
              "distinct (catalogue label, reference verdict, graph changed, lnd error, cached) classes plus distinct "
              "(message type, corrupted byte offset) pairs, plus distinct zombie classes (route, stored-key shape, "
-             "signer, direction bit, reference verdict, resurrected, cached)."),
+             "signer, direction bit, reference verdict, resurrected, cached); the cross-direction labels (direction, channel-flag "
+             "class, message-flag class, timestamp class, signer) are catalogue labels."),
     "assumptions": ["messages reach the gossiper as decoded lnwire objects (undecodable byte corruptions are skipped and counted)",
                     "no channel is closed on chain during a scenario (inert chain view)",
                     "rate limiter disabled (burst 2^30) so that freshness, not rate limiting, decides"],
@@ -83,7 +105,31 @@ PROP = {
                              "z_only2_node2_d0": 49, "z_only2_node2_d1": 49, "z_only2_other_d0": 63,
                              "z_only2_other_d1": 63, "z_none_node1_d0": 18, "z_none_node1_d1": 18,
                              "z_none_node2_d0": 20, "z_none_node2_d1": 20, "z_none_other_d0": 26,
-                             "z_none_other_d1": 26},
+                             "z_none_other_d1": 26,
+                             # zombie-phase updates with channel-flag bits beyond the direction bit
+                             "z_cu_nonplain_flags": 870, "z_nonplain_flags_node1_d0": 125, "z_nonplain_flags_node1_d1": 130, "z_nonplain_flags_node2_d0": 113,
+                             "z_nonplain_flags_node2_d1": 118, "z_nonplain_flags_other_d0": 147, "z_nonplain_flags_other_d1": 153,
+                             # cross-direction phase (flag space x timestamp classes relative to each direction's
+                             # stored policy; ~half of the minimum over seeds 1-6)
+                             "x_cu": 2950, "x_rounds": 245, "x_chan_fresh": 220, "x_d0": 1450, "x_d1": 1450,
+                             "x_cf_plain": 580, "x_cf_dis": 1000, "x_cf_unk": 580, "x_cf_dis+unk": 730,
+                             "x_ref_valid": 970, "x_ref_notnewer": 1350, "x_ref_badsig": 370, "x_ref_fields": 235,
+                             "x_ref_badsig_plain": 70, "x_ref_badsig_dis": 115, "x_ref_badsig_unk": 69,
+                             "x_ref_badsig_dis+unk": 78, "x_stale_own_fresh_oth": 470,
+                             "x_stale_own_fresh_oth_d0_plain": 33, "x_stale_own_fresh_oth_d0_dis": 61,
+                             "x_stale_own_fresh_oth_d0_unk": 30, "x_stale_own_fresh_oth_d0_dis+unk": 44,
+                             "x_stale_own_fresh_oth_d1_plain": 40, "x_stale_own_fresh_oth_d1_dis": 70,
+                             "x_stale_own_fresh_oth_d1_unk": 33, "x_stale_own_fresh_oth_d1_dis+unk": 47,
+                             "x_stale_own_oth_none": 57, "x_own_none": 140, "x_fresh_own_stale_oth": 385,
+                             "x_fresh_own_stale_oth_d0_plain": 39, "x_fresh_own_stale_oth_d0_dis": 60,
+                             "x_fresh_own_stale_oth_d0_unk": 36, "x_fresh_own_stale_oth_d0_dis+unk": 41,
+                             "x_fresh_own_stale_oth_d1_plain": 36, "x_fresh_own_stale_oth_d1_dis": 60,
+                             "x_fresh_own_stale_oth_d1_unk": 35, "x_fresh_own_stale_oth_d1_dis+unk": 40,
+                             "x_layout_none": 21, "x_layout_only0": 27, "x_layout_only1": 29,
+                             "x_layout_d0-older": 60, "x_layout_d0-newer": 57, "x_layout_equal": 21,
+                             "x_valid_applied": 950, "x_valid_applied_plain": 185, "x_valid_applied_dis": 320,
+                             "x_valid_applied_unk": 180, "x_valid_applied_dis+unk": 240,
+                             "x_invalid_refused_ok": 1950},
                    "thorough": {"msgs": 270000, "oracle_graph_evals": 280000, "oracle_bcast_evals": 55000,
                                 "ref_invalid": 210000, "applied_ca": 20000, "applied_cu": 19000,
                                 "applied_na": 15000, "premature_reprocessed": 3800, "future_reinjected": 1000,
@@ -101,6 +147,28 @@ PROP = {
                                 "z_only2_node2_d0": 2450, "z_only2_node2_d1": 2450, "z_only2_other_d0": 3150,
                                 "z_only2_other_d1": 3150, "z_none_node1_d0": 900, "z_none_node1_d1": 900,
                                 "z_none_node2_d0": 1000, "z_none_node2_d1": 1000, "z_none_other_d0": 1300,
-                                "z_none_other_d1": 1300}},
+                                "z_none_other_d1": 1300,
+                                "z_cu_nonplain_flags": 43500, "z_nonplain_flags_node1_d0": 6250, "z_nonplain_flags_node1_d1": 6500, "z_nonplain_flags_node2_d0": 5650,
+                                "z_nonplain_flags_node2_d1": 5900, "z_nonplain_flags_other_d0": 7350, "z_nonplain_flags_other_d1": 7650,
+                                "x_cu": 147500, "x_rounds": 12250, "x_chan_fresh": 11000, "x_d0": 72500,
+                                "x_d1": 72500, "x_cf_plain": 29000, "x_cf_dis": 50000, "x_cf_unk": 29000,
+                                "x_cf_dis+unk": 36500, "x_ref_valid": 48500, "x_ref_notnewer": 67500,
+                                "x_ref_badsig": 18500, "x_ref_fields": 11750, "x_ref_badsig_plain": 3500,
+                                "x_ref_badsig_dis": 5750, "x_ref_badsig_unk": 3450, "x_ref_badsig_dis+unk": 3900,
+                                "x_stale_own_fresh_oth": 23500, "x_stale_own_fresh_oth_d0_plain": 1650,
+                                "x_stale_own_fresh_oth_d0_dis": 3050, "x_stale_own_fresh_oth_d0_unk": 1500,
+                                "x_stale_own_fresh_oth_d0_dis+unk": 2200, "x_stale_own_fresh_oth_d1_plain": 2000,
+                                "x_stale_own_fresh_oth_d1_dis": 3500, "x_stale_own_fresh_oth_d1_unk": 1650,
+                                "x_stale_own_fresh_oth_d1_dis+unk": 2350, "x_stale_own_oth_none": 2850,
+                                "x_own_none": 7000, "x_fresh_own_stale_oth": 19250,
+                                "x_fresh_own_stale_oth_d0_plain": 1950, "x_fresh_own_stale_oth_d0_dis": 3000,
+                                "x_fresh_own_stale_oth_d0_unk": 1800, "x_fresh_own_stale_oth_d0_dis+unk": 2050,
+                                "x_fresh_own_stale_oth_d1_plain": 1800, "x_fresh_own_stale_oth_d1_dis": 3000,
+                                "x_fresh_own_stale_oth_d1_unk": 1750, "x_fresh_own_stale_oth_d1_dis+unk": 2000,
+                                "x_layout_none": 1050, "x_layout_only0": 1350, "x_layout_only1": 1450,
+                                "x_layout_d0-older": 3000, "x_layout_d0-newer": 2850, "x_layout_equal": 1050,
+                                "x_valid_applied": 47500, "x_valid_applied_plain": 9250,
+                                "x_valid_applied_dis": 16000, "x_valid_applied_unk": 9000,
+                                "x_valid_applied_dis+unk": 12000, "x_invalid_refused_ok": 97500}},
     }],
 }
